@@ -113,7 +113,7 @@ pub fn len_strategy(tier: Tier, max_quick: usize, max_thorough: usize) -> BoxedS
 
 pub const ALL_CLASSES: &[u8] = &[0, 1, 2, 3, 4, 5, 6, 7, 8, 9];
 /// tie-heavy classes for the extrema / rank family
-pub const TIE_CLASSES: &[u8] = &[0, 0, 1, 4, 5, 5, 6, 6, 8, 2];
+pub const TIE_CLASSES: &[u8] = &[0, 10, 1, 4, 5, 5, 6, 6, 8, 2];
 
 pub fn raw_series(len: impl Strategy<Value = usize> + 'static) -> impl Strategy<Value = RawSeries> {
     raw_series_of(len, ALL_CLASSES)
@@ -142,11 +142,12 @@ pub fn class_name(class: u8) -> &'static str {
         6 => "plateaus",
         7 => "float_offset",
         8 => "tiny_alphabet",
+        10 => "ulp_neighbours",
         _ => "small_int",
     }
 }
 
-const SCALES: [f64; 8] = [1e-3, 0.1, 1.0, 3.7, 12.5, 1e3, 1.2345e4, 1e6];
+const SCALES: [f64; 10] = [1e-5, 1e-4, 1e-3, 0.1, 1.0, 3.7, 12.5, 1e3, 1.2345e4, 1e6];
 
 /// Pure mapping raw -> values (all finite). `integer`: only integer values; `f32ok`: values exactly
 /// representable in f32 with exact small sums.
@@ -158,6 +159,9 @@ pub fn values_of(rs: &RawSeries, integer: bool, f32ok: bool) -> (Vec<f64>, &'sta
     }
     if integer && class == 2 {
         class = 1;
+    }
+    if class == 10 && (integer || f32ok) {
+        class = 0;
     }
     let mut out = Vec::with_capacity(n);
     match class {
@@ -177,15 +181,23 @@ pub fn values_of(rs: &RawSeries, integer: bool, f32ok: bool) -> (Vec<f64>, &'sta
                 out.push((a % 8193) as f64 / 8.0);
             }
         },
+        10 => {
+            // a handful of adjacent floats: ties and spreads of a few ulps (around 1, or denormal-free tiny)
+            let base = [1.0f64, -1.0, 1e-15, 1024.0][(rs.cparam % 4) as usize];
+            let k = 2 + (rs.cparam / 4 % 3) as i32;
+            for (a, _) in &rs.raw {
+                out.push(f64::from_bits((base.to_bits() as i64 + a.rem_euclid(k) as i64) as u64));
+            }
+        },
         3 => {
-            let s = SCALES[(rs.cparam % 8) as usize];
+            let s = SCALES[(rs.cparam % 10) as usize];
             for (a, _) in &rs.raw {
                 out.push(*a as f64 / RAW_MAX as f64 * s);
             }
         },
         7 => {
-            let s = SCALES[(rs.cparam % 8) as usize];
-            let off = ((rs.cparam / 8) as f64 - 15.5) / 1.55 * s; // |off/s| <= 10
+            let s = SCALES[(rs.cparam % 10) as usize];
+            let off = ((rs.cparam / 10) as f64 - 12.5) / 1.25 * s; // |off/s| <= 10
             for (a, _) in &rs.raw {
                 out.push(off + *a as f64 / RAW_MAX as f64 * s);
             }
@@ -474,6 +486,22 @@ pub fn pair_of(rp: &RawPair) -> (Series, Series, String) {
             let x: Series = a2.iter().zip(ma.iter()).map(|(v, n)| if *n { None } else { Some(*v) }).collect();
             let y: Series = vb2.iter().zip(mb.iter()).map(|(v, n)| if *n { None } else { Some(*v) }).collect();
             return (x, y, format!("{}:{}+{}/{}", rel, "dyadic", na, nb));
+        },
+        2 if rp.a.class == 3 || rp.a.class == 7 => {
+            // both series of the first one's float class and scale (e.g. two small-return series)
+            rel = "common_scale";
+            let (vb2, _) = values_of(
+                &RawSeries {
+                    class: rp.a.class,
+                    cparam: rp.a.cparam,
+                    ..rp.b.clone()
+                },
+                false,
+                false,
+            );
+            let x: Series = va.iter().zip(ma.iter()).map(|(v, n)| if *n { None } else { Some(*v) }).collect();
+            let y: Series = vb2.iter().zip(mb.iter()).map(|(v, n)| if *n { None } else { Some(*v) }).collect();
+            return (x, y, format!("{}:{}/{}+{}/{}", rel, ca, ca, na, nb));
         },
         1 => {
             rel = "noisy_linear";
